@@ -1775,6 +1775,12 @@ func (c *compiler) VisitCastExpr(e *ast.CastExpr) ast.VisitResult {
 			return ast.VisitRecurse
 		}
 
+		// conversions between a list type and a type definition based on it don't change the value
+		if _, isList := lhsTyp.(*ddpIrListType); isList {
+			c.latestReturn, c.latestReturnType, c.latestIsTemp = lhs, lhsTyp, isTempLhs
+			return ast.VisitRecurse // don't free lhs
+		}
+
 		listType := c.getListType(lhsTyp)
 		list := c.NewAlloca(listType.typ)
 		c.cbb.NewCall(listType.fromConstantsIrFun, list, newInt(1))
